@@ -14,6 +14,8 @@ from dask.dataframe._compat import is_string_dtype
 from dask.utils import get_default_shuffle_method
 from packaging.version import Version
 
+from dask_expr import _verif
+
 K = TypeVar("K", bound=Hashable)
 V = TypeVar("V")
 
@@ -126,12 +128,18 @@ class LRU(UserDict[K, V]):
     def __getitem__(self, key: K) -> V:
         value = super().__getitem__(key)
         cast(OrderedDict, self.data).move_to_end(key)
+        if _verif.ENABLED:
+            _verif.emit("lru_get", cache=id(self), key=key, size=len(self))
         return value
 
     def __setitem__(self, key: K, value: V) -> None:
+        evicted = None
         if len(self) >= self.maxsize:
-            cast(OrderedDict, self.data).popitem(last=False)
+            evicted = cast(OrderedDict, self.data).popitem(last=False)
         super().__setitem__(key, value)
+        if _verif.ENABLED:
+            _verif.emit("lru_set", cache=id(self), key=key, size=len(self), maxsize=self.maxsize,
+                        evicted=None if evicted is None else evicted[0])
 
 
 class _BackendData:
